@@ -7,10 +7,43 @@ static void chk(const char *name, tribool t, bool truth)
     std::cout << name << " = " << (is_true(t) ? "true" : is_false(t) ? "false" : "indeterminate") << " (actually " << (truth ? "true" : "false") << ")\n";
     if ((is_true(t) && !truth) || (is_false(t) && truth)) { std::cout << "REPRODUCED: " << name << " gives an unsound definite answer\n"; bad = 1; }
 }
+#include <symengine/assumptions.h>
+#include <symengine/sets.h>
+#include <symengine/mul.h>
+#include <symengine/add.h>
+// combination rules (unit 'combination_rules'): the abstract children are concretised as symbols constrained by real-number
+// assumptions (sound answer 'true'), I times such a symbol (sound answer 'false'); the query is evaluated under the assumptions
+// and compared with the value after substituting numbers that satisfy them.
+static int combination(const std::string &ob, bool kf)
+{
+    RCP<const Symbol> x = symbol("x"), y = symbol("y"), z = symbol("z");
+    set_basic s; s.insert(contains(x, reals())); s.insert(contains(y, reals())); s.insert(contains(z, reals()));
+    Assumptions as(s);
+    struct W { RCP<const Basic> e; map_basic_basic sub; };
+    std::vector<W> ws;
+    // witnesses of the KNOWN-FINDING input classes are used only when the full-domain (known finding) run is replayed (kf=1)
+    if (ob.find("RealVisitor.Mul") != std::string::npos) { ws.push_back({mul(add(x, I), add(y, I)), {{x, integer(1)}, {y, integer(-1)}}}); ws.push_back({mul(mul(add(x, I), sub(x, I)), y), {{x, integer(2)}, {y, integer(3)}}});
+        if (kf) { ws.push_back({mul(I, x), {{x, zero}}}); ws.push_back({mul(mul(I, x), y), {{x, integer(1)}, {y, zero}}}); } }
+    else if (ob.find("RealVisitor.Add") != std::string::npos) { ws.push_back({add(x, mul(y, z)), {{x, integer(1)}, {y, integer(2)}, {z, integer(3)}}});
+        if (kf) { ws.push_back({add(x, sub(mul(I, y), mul(I, z))), {{x, integer(2)}, {y, integer(1)}, {z, integer(1)}}}); ws.push_back({add(x, mul(I, y)), {{x, integer(2)}, {y, zero}}}); } }
+    else if (ob.find("PositiveVisitor.Add") != std::string::npos) { ws.push_back({add(x, y), {{x, integer(1)}, {y, integer(-2)}}}); ws.push_back({add(mul(x, x), integer(1)), {{x, zero}}}); }
+    else return 2;
+    for (auto &w : ws) {
+        RCP<const Basic> val = w.e->subs(w.sub);
+        bool positive = ob.find("Positive") != std::string::npos;
+        tribool q = positive ? is_positive(*w.e, &as) : is_real(*w.e, &as);
+        tribool v = positive ? is_positive(*val) : is_real(*val);
+        std::cout << (positive ? "is_positive(" : "is_real(") << w.e->__str__() << " | x, y, z real) = " << (is_true(q) ? "true" : is_false(q) ? "false" : "indeterminate") << "; at";
+        for (auto &p : w.sub) std::cout << " " << p.first->__str__() << "=" << p.second->__str__(); std::cout << " the value is " << val->__str__() << "\n";
+        if ((is_true(q) && is_false(v)) || (is_false(q) && is_true(v))) { std::cout << "REPRODUCED: the definite answer is wrong for an assignment that satisfies the assumptions\n"; bad = 1; }
+    }
+    return bad;
+}
 int main(int argc, char **argv)
 {
     if (argc < 2) return 3;
     Args a = parse_args(argc, argv);
+    if (std::string(argv[1]).find("Visitor.Add") != std::string::npos || std::string(argv[1]).find("Visitor.Mul") != std::string::npos) return combination(argv[1], has(a, "kf"));
     if (!has(a, "a_type")) return 3;
     RCP<const Basic> x = ghost_obj(a, "a");
     long c = int_of(a, "a_cls"), v = int_of(a, "a_v");
